@@ -256,6 +256,9 @@ def check(model: Model, run: Run) -> None:
     empty_values_accepted(model, run)
     serialisers_are_pure(model, run)
     components_rendered_as_held(model, run)
+    from .c17 import hooks_store_fields_as_given
+    hooks_store_fields_as_given(model, run, model.subclasses(f"{FILTER}.LDAPFilter"), "J14-fields-held-as-given",
+                                "the filter from_string builds is changed again on construction, so it is not the filter the text denotes")
     no_size_based_rejection(model, run)
     from .c19 import parse_results_fresh
     parse_results_fresh(model, run, "sansldap._filter", "J5-parse-results-are-fresh", "from_string(str(f)) == f")
